@@ -1,3 +1,4 @@
+pub mod sm2;
 pub mod sm3;
 pub mod sm4;
 pub mod zuc;
